@@ -372,8 +372,9 @@ func nonNilErrValue(v ssa.Value, at *ssa.BasicBlock, depth int) bool {
 	case *ssa.MakeInterface:
 		return true
 	case *ssa.UnOp:
-		if g, ok := x.X.(*ssa.Global); ok && strings.HasPrefix(g.Name(), "Err") {
-			return true
+		if g, ok := x.X.(*ssa.Global); ok && x.Type().String() == "error" {
+			_ = g
+			return true // a package-level sentinel error
 		}
 	case *ssa.Phi:
 		for _, e := range x.Edges {
